@@ -23,7 +23,7 @@ def main():
             files[rel] = sorted(extract.file_functions(text))
         for m in ex.functions:
             if 'ops_key' in m:
-                ops[m['ops_key']] = {'ops': m['ops'], 'closures': m['closures']}
+                ops[m['ops_key']] = {'ops': m['ops'], 'closures': m['closures'], 'arith': m['arith']}
     with open(extract.BASELINE_FNS, 'w') as f:
         json.dump(files, f, indent=0, sort_keys=True)
     with open(extract.BASELINE_OPS, 'w') as f:
